@@ -62,7 +62,7 @@ def gen_case_long(rng, reftool):
     special edit distances (integer-width boundaries 255/256/257/512/1024 and multiples of 64)"""
     kind = rng.choice(["dna", "protein", "rna"])
     alpha = {"dna": gen.DNA, "rna": gen.RNA, "protein": gen.AA}[kind]
-    L = rng.choice([300, 521, 700, 991, 1500, 2400])
+    L = rng.choice([300, 521, 700, 991, 1200, 1500, 2400])
     if rng.random() < 0.4:
         unit = gen.rand_seq(rng, rng.randint(2, 9), alpha)
         S = gen.mutate(rng, (unit * (L // len(unit) + 1))[:L], alpha, 0.05, 0.0)
@@ -76,11 +76,26 @@ def gen_case_long(rng, reftool):
         for _ in range(rng.randint(2, 6)):
             lb = rng.randint(40, max(41, int(L * 0.7)))
             off = rng.randint(0, L - lb)
+            if rng.random() < 0.3:
+                lb = max(64, (lb // 64) * 64)   # lengths that are exact multiples of the 64-symbol block
             frag = list(S[off:off + lb])
             for _ in range(rng.randint(1, 9)):
                 i = rng.randrange(len(frag))
                 frag[i] = _subst_other_class(rng, frag[i], alpha, kind)
             others.append("".join(frag))
+        if rng.random() < 0.5 and L >= 521:
+            # two long fragments carrying equally long insertions a few positions apart (each copy tends to be joined to one of them)
+            k = rng.choice([10, 30])
+            pos = rng.randint(L // 3, L // 2)
+            la = rng.randint(int(L * 0.6), int(L * 0.8))
+            if rng.random() < 0.3:
+                la = (la // 64) * 64
+            for shift, start in ((0, 0), (rng.choice([2, 4, 6]), L - la)):
+                frag = S[start:start + la]
+                ip = pos + shift - start
+                if 5 < ip < len(frag) - 5:
+                    frag = frag[:ip] + gen.rand_seq(rng, k, alpha) + frag[ip:]
+                others.append(frag)
     if mode in ("special", "both"):
         pool = rng.choice([[64, 128, 192, 255, 256, 257, 512, 768, 1024], [256, 512], [256], [255, 257, 1024], [128, 64]])
         for _ in range(rng.randint(2, 4)):
